@@ -123,6 +123,8 @@ deriving Repr, DecidableEq
 inductive Code where
   | operandCountMismatch | operandInvalid | operatorUnsupported | operatorInvalid | good
   | outOfFuel
+  /-- LIKE pattern outside the modelled subset of the regex syntax (model limitation) -/
+  | unsupportedPattern
 deriving Repr, DecidableEq
 
 inductive Res where
@@ -473,7 +475,7 @@ def applyOp (old : Bool) (vo : Operand → Res) (op : FOp) (os : List Operand) :
         | some s, some p =>
           match likeImpl p s with
           | some r => .ok (boolV r)
-          | none => .err .outOfFuel     -- pattern outside the modelled regex subset
+          | none => .err .unsupportedPattern
         | _, _ => .ok (boolV false)
   | .cast => get 0 fun a => (vo a).bind fun v1 =>
       get 1 fun b => (vo b).bind fun v2 =>
